@@ -54,6 +54,12 @@ func runC11(l *core.Ledger) {
 	l.Rule("C11-K7", "Watch registers a watcher only on an edge where the call is not yet done")
 	l.Rule("C11-K8", "generated typed accessors (Correctable*.Get, Async*.Get) and the data-types template never apply a single-result type assertion to a possibly-nil reply")
 
+	l.Rule("C11-K9", "completion by exhaustion is exact: the expected count reaches the reply loop and is decremented once per skipped node (C02-T4 re-run), and one node contributes at most one error also through a streaming router (C07-E6 re-run)")
+	l.With(map[string]string{"C02-T4": "C11-K9"}, func() { c02T4(l, r) })
+	if rm := buildRouterModel(l, r, "C11-K9"); rm != nil {
+		l.With(map[string]string{"C07-E6": "C11-K9"}, func() { checkDeliverDelete(l, r, rm, "C07-E6", true) })
+	}
+
 	levelNotSet, ok := r.pkg.Types.Scope().Lookup("LevelNotSet").(*types.Const)
 	if !ok {
 		l.Unknown("C11-K1", "anchor/LevelNotSet", token.NoPos, "constant LevelNotSet not found")
